@@ -175,6 +175,29 @@ func render(v ssa.Value, d int, seen map[ssa.Value]bool) string {
 	case *ssa.SliceToArrayPointer:
 		return typeShort(x.Type()) + "(" + r(x.X) + ")"
 	case *ssa.Slice:
+		if a, ok := x.X.(*ssa.Alloc); ok && (a.Comment == "varargs" || a.Comment == "slicelit") && x.Low == nil && x.High == nil {
+			// literal element list
+			if at, ok := a.Type().Underlying().(*types.Pointer).Elem().Underlying().(*types.Array); ok {
+				elems := make([]string, at.Len())
+				for i := range elems {
+					elems[i] = "_"
+				}
+				for _, ref := range *a.Referrers() {
+					if ia, ok := ref.(*ssa.IndexAddr); ok {
+						if k, ok := ia.Index.(*ssa.Const); ok && k.Value != nil {
+							if idx, ok2 := constantInt(k); ok2 && idx >= 0 && idx < int64(len(elems)) {
+								for _, r2 := range *ia.Referrers() {
+									if st, ok := r2.(*ssa.Store); ok {
+										elems[idx] = r(st.Val)
+									}
+								}
+							}
+						}
+					}
+				}
+				return "[" + strings.Join(elems, ", ") + "]"
+			}
+		}
 		lo, hi, mx := "", "", ""
 		if x.Low != nil {
 			lo = r(x.Low)
@@ -287,4 +310,8 @@ func StoredValues(a *ssa.Alloc) []ssa.Value {
 		}
 	}
 	return out
+}
+
+func constantInt(k *ssa.Const) (int64, bool) {
+	return ConstInt(k)
 }
